@@ -23,6 +23,7 @@ import (
 	"github.com/sirupsen/logrus"
 
 	"github.com/ory/keto/internal/driver/config"
+	"github.com/ory/keto/internal/namespace"
 	"github.com/ory/keto/verif/ev"
 	"github.com/ory/keto/verif/vsched"
 )
@@ -247,7 +248,11 @@ type model struct {
 	opl bool
 }
 
-func key(ns []string) string { s := append([]string(nil), ns...); sort.Strings(s); return strings.Join(s, ",") }
+func key(ns []string) string {
+	s := append([]string(nil), ns...)
+	sort.Strings(s)
+	return strings.Join(s, ",")
+}
 
 // perFileVersions returns for each file the list of valid versions (namespace sets; removal = empty set)
 // among hist[:n], in order; index 0 is the initial "nothing loaded yet".
@@ -438,10 +443,10 @@ func TestC19(t *testing.T) {
 		maxLen = 4
 	}
 	type family struct {
-		name  string
-		opl   bool
-		mk    func(*logrusx.Logger) config.VerifHandler
-		alpha []version
+		name          string
+		opl           bool
+		mk            func(*logrusx.Logger) config.VerifHandler
+		alpha         []version
 		maxLen, bound int // 0 = the defaults above
 	}
 	fams := []family{
@@ -557,18 +562,23 @@ func TestC19(t *testing.T) {
 		realOK, realInconclusive = realFileConformance(t, run, l)
 		reloadCases = configReloadKeepsLastGood(t, run, l)
 	}
+	lookupSetExecs := 0
+	if shard == 1%nshards {
+		lookupSetExecs = configLookupVsSet(t, run, l)
+	}
 	run.FinishPart(map[string]any{
 		"real_watcher_histories_confirmed":    realOK,
 		"real_watcher_histories_inconclusive": realInconclusive,
 		"config_reload_cases":                 reloadCases,
-		"states":                        cov.states,
-		"transitions":                   cov.trans,
-		"traces_validated_against_impl": cov.execs,
-		"histories":                     cov.histories,
-		"samples_judged":                cov.samples,
-		"max_history_length":            maxLen,
-		"max_deviation_bound":           bound,
-		"exhaustive":                    cov.complete,
+		"config_lookup_vs_set_executions":     lookupSetExecs,
+		"states":                              cov.states,
+		"transitions":                         cov.trans,
+		"traces_validated_against_impl":       cov.execs,
+		"histories":                           cov.histories,
+		"samples_judged":                      cov.samples,
+		"max_history_length":                  maxLen,
+		"max_deviation_bound":                 bound,
+		"exhaustive":                          cov.complete,
 	})
 }
 
@@ -604,7 +614,6 @@ func sigOf(opl bool, hist []version, bad string) string {
 	}
 	return kind + ":" + multi + ":" + what
 }
-
 
 // realFileConformance replays histories on a temp directory watched by keto's own NewNamespaceWatcher.
 func realFileConformance(t *testing.T, run *ev.Run, l *logrusx.Logger) (ok, inconclusive int) {
@@ -662,7 +671,6 @@ func realFileConformance(t *testing.T, run *ev.Run, l *logrusx.Logger) (ok, inco
 	}
 	return
 }
-
 
 // configReloadKeepsLastGood: Config-level histories on real files. A watched file is loaded in a
 // valid version, then changes to invalid content (or stays valid), then ANY change of the main
@@ -743,4 +751,110 @@ func configReloadKeepsLastGood(t *testing.T, run *ev.Run, l *logrusx.Logger) int
 		}
 	}
 	return cases
+}
+
+// configLookupVsSet: the namespace configuration is changed through config.Config.Set while other requests look the
+// namespace manager up (the first lookup after a change builds it). All schedules to bound 2 on the real Config
+// object (instrumented): every lookup sees the namespaces of one value set so far, and after everything has
+// returned the namespaces served are those of the LAST value set - a change is never lost.
+func configLookupVsSet(t *testing.T, run *ev.Run, l *logrusx.Logger) int {
+	P := func(names ...string) []*namespace.Namespace {
+		var out []*namespace.Namespace
+		for _, n := range names {
+			out = append(out, &namespace.Namespace{Name: n})
+		}
+		return out
+	}
+	ctx, cancel := context.WithCancel(context.Background())
+	defer cancel()
+	ctx = configx.ContextWithConfigOptions(ctx, configx.WithValues(map[string]any{config.KeyDSN: "memory", "log.level": "panic", config.KeyNamespaces: P("A")}))
+	k, err := config.NewDefault(ctx, nil, l)
+	if err != nil {
+		t.Fatalf("INFRA: config: %v", err)
+	}
+	get := func() string {
+		nm, err := k.NamespaceManager()
+		if err != nil {
+			return "error:" + err.Error()
+		}
+		nn, err := nm.Namespaces(ctx)
+		if err != nil {
+			return "error:" + err.Error()
+		}
+		var out []string
+		for _, n := range nn {
+			out = append(out, n.Name)
+		}
+		sort.Strings(out)
+		return strings.Join(out, ",")
+	}
+	type scen struct {
+		name    string
+		sets    [][]string // values set, in order, by the writer thread
+		lookups int        // concurrent lookup threads
+	}
+	execs := 0
+	deadline := ev.Deadline(60, 300)
+	for _, sc := range []scen{{"1 lookup || set B", [][]string{{"B"}}, 1}, {"2 lookups || set B", [][]string{{"B"}}, 2}, {"1 lookup || set B; set C", [][]string{{"B"}, {"C"}}, 1}, {"2 lookups || set B,C (two namespaces)", [][]string{{"B", "C"}}, 2}} {
+		seen := make([]string, sc.lookups)
+		final := ""
+		reported := false
+		e := &vsched.Explore{Bound: 2, Deadline: deadline}
+		e.Run(func(vc vsched.Config) *vsched.Execution {
+			if err := k.Set(config.KeyNamespaces, P("A")); err != nil { // back to the first value; the manager is rebuilt on the next lookup
+				t.Fatalf("INFRA: set: %v", err)
+			}
+			return vsched.Run(vc, func() {
+				var wg vsched.WaitGroup
+				for i := 0; i < sc.lookups; i++ {
+					i := i
+					wg.Add(1)
+					vsched.Go("lookup", func() { defer wg.Done(); seen[i] = get() })
+				}
+				wg.Add(1)
+				vsched.Go("set", func() {
+					defer wg.Done()
+					for _, v := range sc.sets {
+						if err := k.Set(config.KeyNamespaces, P(v...)); err != nil {
+							seen[0] = "error: set: " + err.Error()
+						}
+					}
+				})
+				wg.Wait()
+				final = get()
+			})
+		}, func(x *vsched.Execution) bool {
+			execs++
+			if reported {
+				return true
+			}
+			rep := map[string]any{"family": "config-lookup-vs-set", "scenario": sc.name, "choices": x.Choices}
+			if x.Outcome == "diverged" {
+				fmt.Printf("INFRA-ERROR schedule replay diverged in [config-lookup-vs-set] %s\n", sc.name)
+				os.Exit(2)
+			}
+			if x.Outcome != "ok" {
+				reported = true
+				run.Violation("config-lookup-vs-set:"+x.Outcome, fmt.Sprintf("[%s] execution %s %s; blocked: %v", sc.name, x.Outcome, x.PanicMsg, x.Leaked), rep)
+				return true
+			}
+			valid := map[string]bool{"A": true}
+			for _, v := range sc.sets {
+				valid[strings.Join(v, ",")] = true
+			}
+			for i, sn := range seen {
+				if !valid[sn] {
+					reported = true
+					run.Violation("config-lookup-vs-set:lookup-sees-no-version", fmt.Sprintf("[%s] lookup %d saw namespaces [%s], which is no value that was ever set", sc.name, i, sn), rep)
+					return true
+				}
+			}
+			if want := strings.Join(sc.sets[len(sc.sets)-1], ","); final != want {
+				reported = true
+				run.Violation("config-lookup-vs-set:change-lost", fmt.Sprintf("[%s] after the lookups and the writer returned, the namespaces served are [%s]; the last value set is [%s] (lookups saw %v)", sc.name, final, want, seen), rep)
+			}
+			return true
+		})
+	}
+	return execs
 }
